@@ -92,6 +92,7 @@ func (e *Engine) VerifyFunction(fn *ssa.Function, con *Contract) (v *FV) {
 	fr := v.newFrame(fn, 0)
 	fr.isTop = true
 	fr.con = con
+	v.topFrame = fr
 	st := &State{reach: "true", snap: &Snapshot{ep: v.newEpoch(0), over: map[string]Term{}}, env: map[string]TV{}, addr: map[string]TV{}, held: map[string]string{}}
 	st.snap.ep.initial = true
 	// parameters
@@ -194,6 +195,9 @@ func (e *Engine) VerifyFunction(fn *ssa.Function, con *Contract) (v *FV) {
 				lbl = fmt.Sprint(i + 1)
 			}
 			v.oblige("post", lbl, fmt.Sprintf("%s:%d", shortFile(c.File), c.Line), c.Text, ex.st.reach, t)
+			// later clauses at this exit may rely on earlier ones (each is proved under its
+			// predecessors: together they prove the conjunction)
+			v.assume(ex.st.reach, t)
 		}
 		if con.HasMod {
 			v.frameCheck(fr, ex.st, con, vars, penv.pkg)
